@@ -140,6 +140,20 @@ fn lengths(ctx: &Ctx, bits: u8) -> Vec<usize> {
     v.dedup();
     v
 }
+/// long sequences (4..33 machine words): table / word-at-a-time fast paths only engage here
+fn long_cases(ctx: &Ctx, bits: u8) -> Vec<(usize, usize)> {
+    if ctx.lite {
+        return vec![];
+    }
+    let noff = n_offsets(bits);
+    let mut v = Vec::new();
+    for (i, n) in long_lengths(bits).into_iter().enumerate() {
+        for pad in [0usize, 1 % noff, (i * 5 + 3) % noff] {
+            v.push((n, pad));
+        }
+    }
+    v
+}
 
 fn run_rev<C: CI>(ctx: &mut Ctx) {
     let a = C::alpha();
@@ -159,6 +173,10 @@ fn run_rev<C: CI>(ctx: &mut Ctx) {
                 ctx.sample(|| json!({"codec": name, "op": "rev", "len": n, "pad": pad, "text": a.text(&codes[..n.min(60)])}));
               }
             }
+        }
+        for (k, (n, pad)) in long_cases(ctx, a.bits).into_iter().enumerate() {
+            let codes = patterns(ctx, a, n, k * 4); // random contents
+            rev_case::<C>(ctx, &codes, pad);
         }
     });
 }
@@ -183,6 +201,10 @@ fn run_comp<C: CI + ComplementMut>(ctx: &mut Ctx)
               }
             }
         }
+        for (k, (n, pad)) in long_cases(ctx, a.bits).into_iter().enumerate() {
+            let codes = patterns(ctx, a, n, k * 4);
+            comp_case::<C>(ctx, &codes, pad);
+        }
     });
 }
 
@@ -190,6 +212,6 @@ fn main() {
     run_main("C07", |ctx| {
         for_each_codec!(run_rev, ctx);
         for_each_comp_codec!(run_comp, ctx);
-        ctx.note("rule", json!("reverse for all 7 codecs and complement / reverse-complement for the 5 complementable ones: every length 0..2 words (+boundary classes to 3 words; thorough: every length to 3 words) x ALL achievable bit offsets (thorough: 8 contents per cell), contents random / palindromic / single-symbol; slice, owned and in-place forms; compositions and involutions; receiver image compared before/after. Distinct = (codec, op, content, pad); all non-trivial except length 0/1 which are counted too."));
+        ctx.note("rule", json!("reverse for all 7 codecs and complement / reverse-complement for the 5 complementable ones: every length 0..2 words (+boundary classes to 3 words; thorough: every length to 3 words) x ALL achievable bit offsets (thorough: 8 contents per cell), contents random / palindromic / single-symbol; plus long sequences of 4, 5, 8, 9, 16 and 33 machine words (+-1 symbol) at three offsets, all codecs in one process (so process-wide caches are shared between codecs); slice, owned and in-place forms; compositions and involutions; receiver image compared before/after. Distinct = (codec, op, content, pad); all non-trivial except length 0/1 which are counted too."));
     });
 }
